@@ -424,14 +424,28 @@ def good_age(blk):
     return one is not None and _uint(one[0])
 
 
-def survivors_signature(rx_typed, tx_typed, good, junk_sig):
-    ''' Which class a surplus of typed blocks belongs to: received blocks of that type found again (same number
-    and data) among the transmitted ones are "survivors"; if all of them are blocks whose data is not what RFC 9171
-    defines for the type, it is the does-not-dissect class; if a well-formed one survived, the every-second-one class. '''
-    survivors = [blk for blk in rx_typed
-                 if any(tx['num'] == blk['num'] and bytes(tx['data']).hex() == blk['data'] for tx in tx_typed)]
-    if not survivors or len(tx_typed) > len(survivors) + 1:
+def survivors_signature(rx_typed, tx_typed, good, junk_sig, new_data=None):
+    ''' Which class a surplus of typed blocks belongs to.  ``new_data`` = the data the one legitimately inserted
+    block must carry (None: none expected).  ONE transmitted block with that data is set aside as the inserted one
+    (it may coincide in number AND data with a received block that was removed: the freed number is handed out again
+    and e.g. a received age of 256 ms equals now - creation); every other transmitted block of the type must then be a
+    received one found again (same number and data) - a "survivor".  All survivors not what RFC 9171 defines for the
+    type -> the does-not-dissect class; a well-formed survivor of two or more received -> the every-second-one
+    class; anything else gets a signature of its own (None). '''
+    rest = list(tx_typed)
+    if new_data is not None:
+        for (pos, tx) in enumerate(rest):
+            if bytes(tx['data']) == bytes(new_data):
+                del rest[pos]
+                break
+    if not rest:
         return None
+    survivors = []
+    for tx in rest:
+        match = [blk for blk in rx_typed if tx['num'] == blk['num'] and bytes(tx['data']).hex() == blk['data']]
+        if not match:
+            return None
+        survivors.append(match[0])
     if all(not good(blk) for blk in survivors):
         return junk_sig
     return SIG_MULTI if len(rx_typed) >= 2 else None
@@ -549,7 +563,8 @@ def oracle(case, idx, ent):
             named.append(None)
     if len(prevs) != 1:
         add('previous-node count', '%d Previous Node blocks transmitted (%r)' % (len(prevs), named),
-            survivors_signature([blk for blk in spec['blocks'] if blk['type'] == 6], prevs, good_prev, SIG_PREVJUNK))
+            survivors_signature([blk for blk in spec['blocks'] if blk['type'] == 6], prevs, good_prev, SIG_PREVJUNK,
+                                cbor2.dumps(bg.eid_to_item(node))))
     if named.count(node) != 1:
         add('previous-node value', 'Previous Node blocks name %r, this node is %s' % (named, node))
     # --- hop count
@@ -573,7 +588,8 @@ def oracle(case, idx, ent):
     ages = [blk for blk in blocks if blk['type'] == 7]
     if len(ages) > 1:
         add('bundle-age count', '%d Bundle Age blocks transmitted' % len(ages),
-            survivors_signature([blk for blk in spec['blocks'] if blk['type'] == 7], ages, good_age, SIG_AGEJUNK))
+            survivors_signature([blk for blk in spec['blocks'] if blk['type'] == 7], ages, good_age, SIG_AGEJUNK,
+                                (cbor2.dumps(now - spec['time']) if spec['time'] != 0 else None)))
     if spec['time'] != 0:
         want = now - spec['time']
         vals = [(_loads_one(blk['data']) or [None])[0] for blk in ages]
@@ -582,7 +598,7 @@ def oracle(case, idx, ent):
             if want < 0 and want in vals:
                 pend = SIG_AGENEG
             elif want in vals:
-                pend = survivors_signature([blk for blk in spec['blocks'] if blk['type'] == 7], ages, good_age, SIG_AGEJUNK)
+                pend = survivors_signature([blk for blk in spec['blocks'] if blk['type'] == 7], ages, good_age, SIG_AGEJUNK, cbor2.dumps(want))
             else:
                 pend = None
             add('bundle-age value', 'now - creation = %d, Bundle Age blocks carry %r' % (want, vals), pend)
@@ -630,7 +646,7 @@ def evaluate(chk, cases, pending, count=True, label='gen'):
     impl = [run_impl(case) for case in cases]
     try:
         model = chk.coq_eval('fwd_' + label, ['Lib.Cbor', 'Model.Bundle', 'Model.BpFwd'], [coq_case(case) for case in cases],
-                             'BpFwd.run_case', chunk=max(40, (len(cases) + 7) // 8))
+                             'BpFwd.run_case', chunk=max(40, (len(cases) + 7) // 8 if len(cases) < 1000 else (len(cases) + 15) // 16))
     except CoqError as err:
         model = None
         model_err = str(err)[:600]
@@ -750,7 +766,7 @@ def main():
     corpus = load_corpus()
     corpus_cases = [ent['replay']['case'] for (_name, ent) in corpus if ent.get('replay', {}).get('kind') == 'case']
     directed = directed_cases()
-    count = 400 if chk.quick() else 20000
+    count = 400 if chk.quick() else 12000      # thorough: ~24 000 received bundles, under 15 min on a loaded 16-core box
     cases = [gen_case(chk.rng) for _ in range(count)]
     everything = corpus_cases + directed + cases
     all_dis = []
